@@ -475,6 +475,12 @@ func genInput(r *rand.Rand, k int64) input {
 		raw, _, _ := extBytes(op, seq, seq)
 		binary.BigEndian.PutUint32(raw[8:12], mediaSSRC)
 		in.Kind, in.Hex, in.BufLen = "ext-elem", hex.EncodeToString(raw), 1500
+		switch r.Intn(6) { // as for the other valid packets: sometimes a buffer just large enough, sometimes a smaller one
+		case 0, 1:
+			in.BufLen = len(raw)
+		case 2:
+			in.BufLen = 12 + r.Intn(40)
+		}
 	}
 
 	return in
@@ -548,7 +554,7 @@ func (g *rig) apply(in input, r *rand.Rand) outcome {
 		switch in.Path {
 		case "rtp-read", "rtcp-read":
 			raw, _ := hex.DecodeString(in.Hex)
-			if in.Path == "rtp-read" && (in.Kind == "valid" || in.Kind == "small-buffer" || in.Kind == "probe") && len(raw) >= 12 {
+			if in.Path == "rtp-read" && (in.Kind == "valid" || in.Kind == "small-buffer" || in.Kind == "probe" || in.Kind == "ext-elem") && len(raw) >= 12 {
 				g.rseq++
 				raw[2], raw[3] = byte(g.rseq>>8), byte(g.rseq)
 			}
